@@ -99,6 +99,15 @@ def h_op(n, opname, m=0, light=False):
             return _differential(K, x, lambda a: [a.count(1), a.count(0), a.any(), a.all(), a.tobytes(), a.to01(), list(a), ~a, a.copy(),
                                                   U.ba2int(a) if n else None, U.ba2int(a, signed=True) if n else None,
                                                   U.ba2hex(a) if n % 4 == 0 else None, U.ba2base(8, a) if n % 3 == 0 else None], [])
+        if opname == 'unary-little':
+            import bitarray
+            def f(a):
+                le = bitarray.bitarray(a, endian='little')
+                e = bitarray.bitarray(endian='little')
+                e.frombytes(le.tobytes())
+                return [le.endian, le.tobytes(), le.to01(), le.copy().endian, le[1:].endian, (~le).tobytes(), U.ba2int(le) if n else None, U.ba2int(le, signed=True) if n else None,
+                        U.ba2hex(le) if n % 4 == 0 else None, U.ba2base(8, le) if n % 3 == 0 else None, e, bitarray.bitarray(le, endian='big').tobytes(), le == a]
+            return _differential(K, x, f, [])
         if opname == 'mutate-all':
             def f(a):
                 b = a.copy()
@@ -168,6 +177,8 @@ def conditions(tier):
         add('int2ba', n)
         add('int-roundtrip', n)
     add('unary', 8)
+    for n in ([3, 8] if q else [0, 1, 3, 4, 8, 9, 12]):
+        add('unary-little', n)
     for m in ([1] if q else [0, 1, 2]):
         add('hex2ba', 0, m)
     return conds
